@@ -464,6 +464,15 @@ impl SrtpContext {
     }
 
     pub fn protect_rtcp(&mut self, packet: &mut Vec<u8>) -> SrtpResult<()> {
+        // The SRTCP index is 31 bits wide (bit 31 of the word on the wire is the
+        // E flag). Once it is used up the master key is exhausted and must be
+        // replaced (RFC 3711 section 9.2); going on would encrypt with an index
+        // the receiver cannot reconstruct.
+        if self.rtcp_index >= 0x7FFF_FFFF {
+            return Err(SrtpError::Internal(
+                "SRTCP index space exhausted, re-keying required".to_string(),
+            ));
+        }
         self.rtcp_index += 1;
         let index = self.rtcp_index;
         // E-bit = 1 (Encrypted)
